@@ -82,7 +82,7 @@ func usableScenario(p usableParams) func() {
 		for _, x := range p.calls {
 			x := x
 			c := w.NewCall(x.kind)
-			if x.kind == "GRPCCall" {
+			if x.kind == "GRPCCall" || x.kind == "Unicast" {
 				c.Node = 1
 			}
 			kOf[c.Tok] = x.k
@@ -215,6 +215,7 @@ func usableInstances(tier string) []Instance {
 		wlCall{kind: "Correctable", doneAt: 0, cancel: true},
 		wlCall{kind: "GRPCCall", cancel: true},
 		wlCall{kind: "Multicast", cancel: true},
+		wlCall{kind: "Unicast", cancel: true},
 	)
 	for _, n := range []int{1, 2} {
 		for _, c := range singles {
@@ -260,7 +261,7 @@ func usableInstances(tier string) []Instance {
 
 func init() {
 	register(&Check{ID: "C09",
-		Rule:        "workloads on node 1 (configuration of 1 or 2 nodes): every single call from {correctable stream with k in 1..3 server replies x quorum function done at the first reply / never x fast / slow (blocked) quorum function, cancelled stream, quorum call, async, correctable, RPC, multicast, each optionally with its context cancelled by a free-running thread} and every ordered pair of 5 representatives (concurrent and sequential) x fault {none, stream reset, crash+restart as free-running threads} x a free-running thread that fires the armed timers at any instant; then every back-off timer is fired to a horizon of 4 rounds and a probe RPC with a fresh context is issued; oracle: the probe is delivered and answered with its own stamped reply, and no library thread is left blocked on a lock; all schedules within the deviation bound; an outcome is (instance, probe result)",
+		Rule:        "workloads on node 1 (configuration of 1 or 2 nodes): every single call from {correctable stream with k in 1..3 server replies x quorum function done at the first reply / never x fast / slow (blocked) quorum function, cancelled stream, quorum call, async, correctable, RPC, multicast, unicast, each optionally with its context cancelled by a free-running thread} and every ordered pair of 5 representatives (concurrent and sequential) x fault {none, stream reset, crash+restart as free-running threads} x a free-running thread that fires the armed timers at any instant; then every back-off timer is fired to a horizon of 4 rounds and a probe RPC with a fresh context is issued; oracle: the probe is delivered and answered with its own stamped reply, and no library thread is left blocked on a lock; all schedules within the deviation bound; an outcome is (instance, probe result)",
 		Gen:         usableInstances,
 		Assumptions: []string{"handlers of the workload return at once (the property conditions on handlers that return or release)", "eventual form: armed library timers are fired before the probe and while it waits"},
 	})
